@@ -5308,6 +5308,15 @@ FL_FIND = ("let", ("pvar", "opt"), None,
            ("try", ("mcall", ("path", ["self"]), "find_in_hash_buckets_kt", [("path", ["hash"]), ("path", ["key_kt"])])), False)
 
 
+def fl_find_var(st):
+    """`let <v> = self.find_in_hash_buckets_kt(<a>, <b>)?;` -> v (whatever the local names are), else None"""
+    if (isinstance(st, tuple) and len(st) == 5 and st[0] == "let" and st[1][0] == "pvar" and st[2] is None and st[4] is False
+            and st[3][0] == "try" and st[3][1][0] == "mcall" and st[3][1][1] == ("path", ["self"])
+            and st[3][1][2] == "find_in_hash_buckets_kt" and len(st[3][1][3]) == 2):
+        return st[1][1]
+    return None
+
+
 def fl_pin_method(repo, feats, methods, rel, header, name, want):
     if (rel, header) not in methods:
         methods[(rel, header)] = io_find_methods(repo, feats, rel, header)
@@ -5420,7 +5429,8 @@ def emit_flushops(repo, feats, out, done, methods):
     if FL_SET_TRUE not in sts:
         fail("%s: `self.dirty = true;` is not a statement of the function body itself (it is inside a branch)" % put.where)
     k = sts.index(FL_SET_TRUE)
-    if sts[:k] != [FL_FIND] or k + 1 >= len(sts) or not (sts[k + 1][0] == "expr" and sts[k + 1][1][0] == "iflet"):
+    if k != 1 or fl_find_var(sts[0]) is None or k + 1 >= len(sts) or not (
+            sts[k + 1][0] == "expr" and sts[k + 1][1][0] == "iflet" and sts[k + 1][1][2] == ("path", [fl_find_var(sts[0])])):
         fail("%s: `self.dirty = true;` does not stand between `let opt = self.find_in_hash_buckets_kt(hash, key_kt)?;` and the "
              "`if let Some(..) = opt`" % put.where)
     texts.append("/-- %s: `self.dirty = true;` stands in the function body itself, after `let opt = self.find_in_hash_buckets_kt(hash, "
@@ -5428,7 +5438,8 @@ def emit_flushops(repo, feats, out, done, methods):
                  "before it writes, whether it replaces or inserts -/\ndef putSetsDirty : Bool := true\n" % put.src)
     sts, tl = dele.body[1], dele.body[2]
     il = tl if (tl is not None and tl[0] == "iflet") else (sts[-1][1] if (sts and sts[-1][0] == "expr" and sts[-1][1][0] == "iflet") else None)
-    if not (il is not None and [x for x in sts if x[0] != "expr" or x[1] is not il] == [FL_FIND] and il[2] == ("path", ["opt"])
+    rest = [x for x in sts if x[0] != "expr" or x[1] is not il]
+    if not (il is not None and len(rest) == 1 and fl_find_var(rest[0]) is not None and il[2] == ("path", [fl_find_var(rest[0])])
             and il[1][0] == "pctor" and il[1][1] == "Some" and il[3][1] and il[3][1][0] == FL_SET_TRUE):
         fail("%s: `self.dirty = true;` is not the first statement of the `Some` branch of `if let Some(..) = opt` after "
              "`let opt = self.find_in_hash_buckets_kt(hash, key_kt)?;`" % dele.where)
